@@ -150,6 +150,29 @@ def gen_pair(rnd, tier, lcs):
     return SG, G, bool(nc), bool(ec), kind, hk
 
 
+def recolour(rnd, SG):
+    """Same nodes and edges in the same order; the colour values are dealt out again (same multisets)."""
+    H = nx.Graph()
+    ncol = [SG.nodes[n].get('c') for n in SG.nodes]
+    ecol = [d.get('e') for _, _, d in SG.edges(data=True)]
+    rnd.shuffle(ncol)
+    rnd.shuffle(ecol)
+    for n, c in zip(SG.nodes, ncol):
+        H.add_node(n, **({'c': c} if c is not None else {}))
+    for (u, v, _), e in zip(SG.edges(data=True), ecol):
+        H.add_edge(u, v, **({'e': e} if e is not None else {}))
+    return H
+
+
+def host_from_pattern(rnd, SG):
+    G = nx.convert_node_labels_to_integers(SG)
+    if rnd.random() < 0.5:
+        n = len(G)
+        G.add_node(n, **({'c': 0} if any('c' in d for _, d in SG.nodes(data=True)) else {}))
+        G.add_edge(n, rnd.randrange(n), **({'e': 0} if any('e' in d for _, _, d in SG.edges(data=True)) else {}))
+    return G
+
+
 def describe(SG, G, nm, em):
     return {'pattern_nodes': {str(n): SG.nodes[n].get('c') for n in SG.nodes},
             'pattern_edges': [[u, v, d.get('e')] for u, v, d in SG.edges(data=True)],
@@ -207,7 +230,7 @@ class OracleDisagreement(Exception):
     pass
 
 
-def check_iso(G, SG, nm, em, rnd):
+def check_iso(G, SG, nm, em, rnd, cache=None):
     """-> (problem or None, info)"""
     from vermouth.ismags import ISMAGS
     node_match, edge_match = matchers(nm, em)
@@ -219,7 +242,7 @@ def check_iso(G, SG, nm, em, rnd):
         return 'skip', {}
     info = {'isos': len(own), 'auts': len(auts)}
     api = rnd.choice(['find_isomorphisms', 'subgraph_isomorphisms_iter'])
-    full = list(getattr(ISMAGS(G, SG, node_match=node_match, edge_match=edge_match), api)(symmetry=False))
+    full = list(getattr(ISMAGS(G, SG, node_match=node_match, edge_match=edge_match, cache=cache), api)(symmetry=False))
     for m in full:
         if not sound(G, SG, m, nm, em):
             return ('nosym/unsound', {'mapping': sorted(m.items())}), info
@@ -231,14 +254,14 @@ def check_iso(G, SG, nm, em, rnd):
                                       'expected': len(own)}), info
     # invariant on the symmetry analysis itself: a coset can never leave the orbit of its node under Aut(pattern)
     if len(SG):
-        I0 = ISMAGS(G, SG, node_match=node_match, edge_match=edge_match)
+        I0 = ISMAGS(G, SG, node_match=node_match, edge_match=edge_match, cache=cache)
         _, cosets = I0.analyze_symmetry(SG, I0._sgn_partitions, I0._sge_colors)
         for k, members in cosets.items():
             orbit = {a[k] for a in auts}
             if not set(members) <= orbit:
                 return ('symmetry/coset-exceeds-orbit', {'node': k, 'coset': sorted(members), 'orbit': sorted(orbit),
                                                          'automorphisms': len(auts)}), info
-    sym = list(getattr(ISMAGS(G, SG, node_match=node_match, edge_match=edge_match), api)(symmetry=True))
+    sym = list(getattr(ISMAGS(G, SG, node_match=node_match, edge_match=edge_match, cache=cache), api)(symmetry=True))
     for m in sym:
         if not sound(G, SG, m, nm, em):
             return ('sym/unsound', {'mapping': sorted(m.items())}), info
@@ -255,19 +278,19 @@ def check_iso(G, SG, nm, em, rnd):
         missing = [sorted(next(iter(c))) for c in list(classes - set(symcls))[:3]]
         return ('sym/class-lost', {'yielded': len(sym), 'classes': len(classes), 'example_missing': missing}), info
     # boolean front ends
-    I = ISMAGS(G, SG, node_match=node_match, edge_match=edge_match)
+    I = ISMAGS(G, SG, node_match=node_match, edge_match=edge_match, cache=cache)
     if bool(I.subgraph_is_isomorphic()) != bool(own):
         return ('bool/subgraph_is_isomorphic', {'expected': bool(own)}), info
     if bool(I.is_isomorphic()) != (bool(own) and len(G) == len(SG)):
         return ('bool/is_isomorphic', {'expected': bool(own) and len(G) == len(SG)}), info
     if len(G) == len(SG):
-        it = list(ISMAGS(G, SG, node_match=node_match, edge_match=edge_match).isomorphisms_iter(symmetry=False))
+        it = list(ISMAGS(G, SG, node_match=node_match, edge_match=edge_match, cache=cache).isomorphisms_iter(symmetry=False))
         if {fz(m) for m in it} != own or len(it) != len(own):
             return ('nosym/isomorphisms_iter', {'yielded': len(it), 'expected': len(own)}), info
     return None, info
 
 
-def check_lcs(G, SG, nm, em):
+def check_lcs(G, SG, nm, em, cache=None):
     from vermouth.ismags import ISMAGS
     node_match, edge_match = matchers(nm, em)
     node_ok = (lambda g, p: G.nodes[g].get('c') == SG.nodes[p].get('c')) if nm else (lambda g, p: True)
@@ -286,7 +309,7 @@ def check_lcs(G, SG, nm, em):
     auts = oracle_auts(SG, nm, em)
     info = {'max_size': k, 'max_count': len(allmax), 'auts': len(auts)}
     for symflag in (False, True):
-        out = list(ISMAGS(G, SG, node_match=node_match, edge_match=edge_match).largest_common_subgraph(symmetry=symflag))
+        out = list(ISMAGS(G, SG, node_match=node_match, edge_match=edge_match, cache=cache).largest_common_subgraph(symmetry=symflag))
         tag = 'lcs-sym/' if symflag else 'lcs-nosym/'
         for m in out:
             if not sound(G, SG, m, nm, em):
@@ -345,20 +368,34 @@ def run_case(params):
     b = harness.Batch()
     limit = 8 if params['tier'] == 'quick' else 20
     pinned = list(pinned_pairs()) if params['batch'] == 0 else []
+    shared_cache = {}          # one symmetry cache shared by a history of matches (the public cache= argument)
+    prev = None
     for j in range(params['n'] + len(pinned)):
+        use_cache = False
         if j < len(pinned):
             SG, G, nm, em, kind, hk, lcs = pinned[j]
+        elif prev is not None and rnd.random() < 0.3:
+            # same pattern (same node and edge order), colours placed differently, matched with the shared cache
+            SG0, nm, em, kind0, lcs = prev
+            SG = recolour(rnd, SG0)
+            G = relabel(rnd, host_from_pattern(rnd, SG), 90)
+            kind, hk = 'recoloured:' + kind0.split(':')[-1], 'copy-of-recoloured'
+            use_cache = True
         else:
             lcs = rnd.random() < 0.3
             SG, G, nm, em, kind, hk = gen_pair(rnd, params['tier'], lcs)
+            use_cache = rnd.random() < 0.5
+        if (nm or em) and len(SG) <= 8:
+            prev = (SG, nm, em, kind, lcs)
+        cache = shared_cache if use_cache else None
         b.total += 1
         desc = None
         try:
             with harness.sub_alarm(limit):
                 if lcs:
-                    p, info = check_lcs(G, SG, nm, em)
+                    p, info = check_lcs(G, SG, nm, em, cache)
                 else:
-                    p, info = check_iso(G, SG, nm, em, rnd)
+                    p, info = check_iso(G, SG, nm, em, rnd, cache)
         except harness.CaseTimeout:
             b.inconclusive('watchdog')
             b.feat('watchdog_' + kind.split(':')[0])
@@ -376,7 +413,8 @@ def run_case(params):
             b.inconclusive('too-many-isomorphisms')
             continue
         b.hits += 1
-        b.feat({'lcs_cases': int(lcs), 'iso_cases': int(not lcs), 'node_coloured': int(nm), 'edge_coloured': int(em),
+        b.feat({'with_shared_symmetry_cache': int(cache is not None), 'recoloured_repeat_of_previous_pattern': int(kind.startswith('recoloured')),
+                'lcs_cases': int(lcs), 'iso_cases': int(not lcs), 'node_coloured': int(nm), 'edge_coloured': int(em),
                 'pattern_disconnected': int(len(SG) > 0 and not nx.is_connected(SG)),
                 'pattern_kind_' + kind.split(':')[0]: 1})
         if p:
